@@ -22,7 +22,8 @@ use crate::util;
 use crate::worker::{self, WorkerResult};
 use crate::world::{self, Verdict};
 
-pub const FAULTS: [&str; 18] = [
+pub const FAULTS: [&str; 19] = [
+    "expired:written-with-an-offset",
     "failing-sublayout-next-to-valid-link:first",
     "tampered-layout",
     "no-keys",
@@ -246,6 +247,21 @@ pub fn worker_case(case: &Value, dir: &Path) -> Value {
     let expires = if has(&faults, "expired") { world::now() - chrono::Duration::seconds(1) } else { world::far_future() };
     let lay = world::layout(steps, inspections, &[k.a, k.b, k.d], expires);
     let mut block = world::sign_layout(lay, &[k.owner]);
+    if has(&faults, "expired:written-with-an-offset") {
+        // expired an hour ago; the document spells that instant with the offset +05:00, and the owner
+        // signed what that text reads as
+        let instant = world::now() - chrono::Duration::hours(1);
+        let text = instant.with_timezone(&chrono::FixedOffset::east_opt(5 * 3600).unwrap()).to_rfc3339_opts(chrono::SecondsFormat::Secs, false);
+        let mut v = world::block_value(&block);
+        v["signed"]["expires"] = json!(text);
+        if let Ok(parsed) = world::block_from_value(&v) {
+            let mut v2 = world::block_value(&world::sign(parsed.metadata.clone(), &[k.owner]));
+            v2["signed"]["expires"] = json!(text);
+            if let Ok(b) = world::block_from_value(&v2) {
+                block = b;
+            }
+        }
+    }
     if has(&faults, "tampered-layout") {
         let mut v = world::block_value(&block);
         v["signed"]["readme"] = json!("altered after signing");
